@@ -111,9 +111,10 @@ def theorems_in(path):
 class Lean:
     """lake build, axiom audit, driver I/O."""
 
-    def __init__(self, log):
+    def __init__(self, log, prop_id='C03'):
         self.log = log
-        self.driver_path = os.path.join(LEAN, '.lake', 'build', 'bin', 'driver')
+        self.exe = 'driver_' + prop_id.lower()
+        self.driver_path = os.path.join(LEAN, '.lake', 'build', 'bin', self.exe)
 
     def _lake(self, args, timeout=3000):
         lock = stage._lock()
@@ -125,7 +126,7 @@ class Lean:
         return r
 
     def build_driver(self):
-        r = self._lake(['build', 'driver'])
+        r = self._lake(['build', self.exe])
         if r.returncode != 0:
             raise HarnessError('driver build failed:\n' + (r.stdout + r.stderr)[-4000:])
 
@@ -332,7 +333,7 @@ def main(argv=None):
     stage_dir = None
     try:
         mod = importlib.import_module('props.' + prop_id.lower())
-        lean = Lean(log)
+        lean = Lean(log, prop_id)
         # 1. translator
         gen_info = None
         if hasattr(mod, 'translate'):
